@@ -36,7 +36,7 @@ ASSUMPTIONS = [
     "no other live node has taken over a serialized id at deserialization time (alive-subsets arise from dropping handles / detaching whole trees)",
     "Any-typed properties, NaN/inf, lone surrogates and ints beyond 64 bits are outside the generator",
 ]
-MUST_SEE = ["foreign_source_dump_loaded", "twin_population_changed_before_read", "user_dialect_roundtrips", "payload_read_again", "equal_but_distinct_source_objects", "subclass_clear_registry_calls", "union_field_non_first_member", "other_dialect_call_before_roundtrip", "recreated_with_suffix_id", "shared_subtrees", "fresh_process_cases", "subforest_alive", "none_alive", "all_alive", "multi_origin", "hostile_strings", "index_sources", "yaml", "msgpck", "json", "failed_call_before_roundtrip"]
+MUST_SEE = ["origins_with_user_defined_parts", "foreign_source_dump_loaded", "twin_population_changed_before_read", "user_dialect_roundtrips", "payload_read_again", "equal_but_distinct_source_objects", "subclass_clear_registry_calls", "union_field_non_first_member", "other_dialect_call_before_roundtrip", "recreated_with_suffix_id", "shared_subtrees", "fresh_process_cases", "subforest_alive", "none_alive", "all_alive", "multi_origin", "hostile_strings", "index_sources", "yaml", "msgpck", "json", "failed_call_before_roundtrip"]
 CONFIG = {
     "quick": {"shards": 16, "trees": 60, "fresh": 6, "watchdog_s": 600},
     "thorough": {"shards": 32, "trees": 400, "fresh": 60, "watchdog_s": 3400},
@@ -167,6 +167,10 @@ def run_shard(ctx):
         rng = ctx.rng(case)
         tg = G.TreeGen(rng, U, max_nodes=rng.choice([3, 8, 16]), max_depth=5, max_width=4, share=0.15 if case % 3 == 0 else 0.0, twin=0.25, p_origin=0.6, hostile=0.0, exclude=(f"{P}Ser", f"{P}Blob", f"{P}Nested"))  # bytes / Any-typed nested tuples are not among the representable kinds of the statement; a per-instance init=False value cannot round-trip (don't-care)
         s = tg.tree()
+        if case % 7 == 3:
+            # origins with parts of the user's own classes: a position that is not hashable, a measurable (falsy) origin
+            s.origin = rng.choice([("tok", case % O.N_SOURCES, case % 3), ("span", 0, 1, 1)])
+            ctx.count("origins_with_user_defined_parts")
         directed_union = case % 6 == 5
         if directed_union:
             # union-typed child fields holding non-first members, shared or not (alive modes below keep exactly these alive)
